@@ -1,4 +1,4 @@
-SPECIFICATION FSpec
+SPECIFICATION FSpecFast
 CONSTANTS
   Names <- Names5
   Values = {"v1", "v2"}
